@@ -207,10 +207,12 @@ theorem prim_enter (hI : PrimInv env I) {w w2 : World} {v : VehicleId} {next : A
         · cases h
         · split at h
           · cases h
-          · simp only [Outcome.bind_eq, Outcome.bind_eq_ok, Outcome.pure_eq] at h
-            obtain ⟨st', henq, s1, h0, s2, h1, h2⟩ := h
-            cases h2
-            exact prim_applyAct hI (hI.stn hi h0) h1
+          · split at h
+            · cases h
+            · simp only [Outcome.bind_eq, Outcome.bind_eq_ok, Outcome.pure_eq] at h
+              obtain ⟨st', henq, s1, h0, s2, h1, h2⟩ := h
+              cases h2
+              exact prim_applyAct hI (hI.stn hi h0) h1
   case chargingBase b cid =>
     split at h
     · cases h
